@@ -44,7 +44,7 @@ func (p *G1Affine) SetBytes(buf []byte) (int, error) {
 
 // we store both X and Y and there is no spare bit for flagging
 func (p *G1Affine) setBytes(buf []byte, subGroupCheck bool) (int, error) {
-	if len(buf) < SizeOfG1AffineCompressed {
+	if len(buf) < SizeOfG1AffineUncompressed {
 		return 0, io.ErrShortBuffer
 	}
 
